@@ -26,14 +26,14 @@ Proof. intro E. replace (N.of_nat (S k)) with (N.of_nat k + 1) in E by lia. pose
 Definition deco := N -> (N * N)%type.
 
 (* what the tree hash of a subtree depends on, with the leaves in [strip] taken out *)
-Inductive cterm := CBlank | CLeaf (id key ph : N) | CPar (nd : option (N * N * list N)) (l r : cterm).
+Inductive cterm := CLeaf (j : N) (nd : option (N * N * N)) | CPar (nd : option (N * N * list N)) (l r : cterm).
 
 Fixpoint content (t : tree) (d : deco) (strip : list N) (k : nat) (j : N) : cterm :=
   let x := node (N.of_nat k) j in
   match k with
   | O => match get t x with
-         | Some (Leaf id) => if mem j strip then CBlank else CLeaf id (fst (d x)) (snd (d x))
-         | _ => CBlank
+         | Some (Leaf id) => if mem j strip then CLeaf j None else CLeaf j (Some (id, fst (d x), snd (d x)))
+         | _ => CLeaf j None
          end
   | S k' => CPar (match get t x with
                   | Some (Par um) => Some (fst (d x), snd (d x), filter (fun l => negb (mem l strip)) um)
